@@ -258,7 +258,10 @@ def eval_norm(case):
     elif (a["user"], a["password"]) != (b["user"], b["password"]):
         res.append(("C05/userinfo", desc + ": userinfo %r -> %r with strip_authentication=False" % ((a["user"], a["password"]), (b["user"], b["password"]))))
     # host
-    ok, why = host_ok(a["host"], b["host"], o)
+    # lower-casing a capital sigma depends on what follows it (final 'ς' or medial 'σ'), so on *when* a host is lower-cased relative to its
+    # neighbours: the two spellings are one letter here (same rule as the case flips of the generators: only where the mapping round-trips)
+    _sig = lambda ls: [l.replace("\u03c2", "\u03c3") for l in ls]  # noqa
+    ok, why = host_ok(_sig(a["host"]), _sig(b["host"]), o)
     if not ok:
         res.append(("C05/host", desc + ": host %r -> %r: %s" % (a["host"], b["host"], why)))
     for lab in (b["raw_host"] or "").split("."):
